@@ -69,11 +69,40 @@ class _OldXform(ast.NodeTransformer):
         return self.generic_visit(node)
 
 
+def close(a, b, rel=2e-4, ab=2e-5):
+    """value identity up to float32 rounding (exact identity incl. NaN in the symbolic model)"""
+    try:
+        if math.isnan(a) or math.isnan(b):
+            return math.isnan(a) and math.isnan(b)
+        if math.isinf(a) or math.isinf(b):
+            return a == b
+    except TypeError:
+        return a == b
+    return abs(a - b) <= ab + rel * max(abs(a), abs(b))
+
+
+def _np1(f):
+    def g(x):
+        with np.errstate(all="ignore"):
+            return float(f(np.float64(x)))
+    return g
+
+
+def _atan2(a, b):
+    with np.errstate(all="ignore"):
+        return float(np.arctan2(np.float64(a), np.float64(b)))
+
+
 def spec_env():
     specs = importlib.import_module("contracts.specs")
     env = {k: getattr(specs, k) for k in dir(specs) if not k.startswith("__")}
-    env.update(implies=implies, iff=iff, ite=ite, isnan=_isnan, isfinite=_isfinite, isinf=_isinf,
-               sqrt=math.sqrt, floor=math.floor, np=np, math=math)
+    extra = dict(implies=implies, iff=iff, ite=ite, isnan=_isnan, isfinite=_isfinite, isinf=_isinf, close=close,
+                 sqrt=_np1(np.sqrt), atan=_np1(np.arctan), sin=_np1(np.sin), cos=_np1(np.cos), asin=_np1(np.arcsin),
+                 exp=_np1(np.exp), atan2=_atan2, pi=math.pi, floor=math.floor)
+    env.update(extra)
+    env.update(np=np, math=math)
+    for k, v in extra.items():
+        setattr(specs, k, v)
     # spec functions look names up in their own module globals
     specs.isnan = _isnan
     specs.isfinite = _isfinite
@@ -273,7 +302,7 @@ def fuzz(c, seed, n, budget_s):
     while it < n and time.time() - t0 < budget_s:
         it += 1
         if gen is not None:
-            args = gen(rng, it)
+            args = gen(rng, it, c)
             if args is None:
                 break
         else:
